@@ -3,6 +3,7 @@
 
 mod c04;
 mod c08;
+mod c15;
 mod c16;
 mod cards;
 mod evalrun;
@@ -38,6 +39,7 @@ fn main() {
 fn real_main(args: Vec<String>) -> i32 {
     match args[1].as_str() {
         "c08-child" => c08::child_main(),
+        "c15-alone" => c15::alone_child_main(),
         "run" => {
             if args.len() < 4 {
                 usage();
@@ -50,6 +52,7 @@ fn real_main(args: Vec<String>) -> i32 {
             match args[2].as_str() {
                 "C04" => c04::run(tier),
                 "C08" => c08::run(tier),
+                "C15" => c15::run(tier),
                 "C16" => c16::run(tier),
                 _ => usage(),
             }
@@ -70,6 +73,7 @@ fn real_main(args: Vec<String>) -> i32 {
             let got = match prop.as_str() {
                 "C04" => c04::replay(&v),
                 "C08" => c08::replay(&v),
+                "C15" => c15::replay(&v),
                 "C16" => c16::replay(&v),
                 _ => {
                     eprintln!("HARNESS ERROR: unknown property in replay file");
